@@ -8,65 +8,20 @@ set_option linter.unusedSimpArgs false
 
 namespace SkNet.Topology
 
-/-- the condition under which `dagStep order value` zeroes the entry -/
-def killed (order : List Int) (value : Int) (e : Entry) : Bool :=
-  if value < 0 then order.getD e.row 0 == value
-  else order.getD e.row 0 == value && decide (order.getD e.col 0 ≤ value)
-
-theorem dagStep_eq (order : List Int) (value : Int) (es : List Entry) :
-    dagStep order value es = es.map fun e => if killed order value e then { e with keep := false } else e := by
-  unfold dagStep killed
-  apply List.map_congr_left
-  intro e _
-  by_cases h : value < 0 <;> simp [h]
-
-theorem dagLoop_eq (order : List Int) (values : List Int) (es : List Entry) :
-    dagLoop order values es =
-      es.map fun e => if values.any (killed order · e) then { e with keep := false } else e := by
-  unfold dagLoop
-  induction values generalizing es with
-  | nil => simp
-  | cons v vs ih =>
-    rw [List.foldl_cons, ih, dagStep_eq, List.map_map]
-    apply List.map_congr_left
-    intro e _
-    simp only [Function.comp, List.any_cons]
-    by_cases h1 : killed order v e
-    · simp only [h1, if_true, Bool.true_or]
-      have hk : (fun x => killed order x { e with keep := false }) = (fun x => killed order x e) := by
-        funext x; simp [killed]
-      rw [hk]
-      by_cases h2 : vs.any (fun x => killed order x e) <;> simp [h2]
-    · simp [h1]
-
 /-- the orientation rule of `get_dag` -/
 def keepPred (order : List Int) (i j : Nat) : Bool :=
   decide (0 ≤ order.getD i 0) && decide (order.getD i 0 < order.getD j 0)
 
-theorem killed_iff (order : List Int) (v : Int) (e : Entry) :
-    killed order v e = true ↔
-      order.getD e.row 0 = v ∧ (v < 0 ∨ order.getD e.col 0 ≤ v) := by
-  unfold killed
+/-- the mask zeroes exactly the entries that the orientation rule rejects -/
+theorem masked_iff (order : List Int) (e : Entry) :
+    (decide (order.getD e.row 0 < 0) || decide (order.getD e.col 0 ≤ order.getD e.row 0)) =
+      !keepPred order e.row e.col := by
+  unfold keepPred
   generalize order.getD e.row 0 = a
   generalize order.getD e.col 0 = b
-  by_cases hv : v < 0
-  · simp only [hv, if_true, beq_iff_eq, true_or, and_true]
-  · simp only [hv, if_false, Bool.and_eq_true, beq_iff_eq, decide_eq_true_eq, false_or]
-
-theorem any_killed (order : List Int) (e : Entry) (h : e.row < order.length) :
-    order.eraseDups.any (killed order · e) = !keepPred order e.row e.col := by
-  have hmem : order.getD e.row 0 ∈ order.eraseDups := by
-    rw [List.mem_eraseDups]
-    rw [List.getD_eq_getElem?_getD, List.getElem?_eq_getElem h]
-    exact List.getElem_mem h
   rw [Bool.eq_iff_iff]
-  simp only [List.any_eq_true, killed_iff, keepPred, Bool.not_eq_true', Bool.and_eq_false_iff,
-    decide_eq_false_iff_not]
-  generalize order.getD e.row 0 = a at *
-  generalize order.getD e.col 0 = b at *
-  constructor
-  · rintro ⟨v, _, rfl, h2⟩; omega
-  · intro h2; exact ⟨a, hmem, rfl, by omega⟩
+  simp only [Bool.or_eq_true, decide_eq_true_eq, Bool.not_eq_true', Bool.and_eq_false_iff, decide_eq_false_iff_not]
+  omega
 
 theorem flatMap_single {α : Type} (l : List Nat) (i : Nat) (X : Nat → List α) (hn : l.Nodup) (hi : i ∈ l) :
     l.flatMap (fun a => if a = i then X a else []) = X i := by
@@ -93,16 +48,16 @@ theorem flatMap_congr' {α β : Type} (l : List α) (f g : α → List β) (h : 
     l.flatMap f = l.flatMap g := by
   rw [List.flatMap_def, List.flatMap_def, List.map_congr_left h]
 
-/-- the loop, `eliminate_zeros` and the selection of row `i`, entry by entry -/
-theorem processed_row (order : List Int) (values : List Int) (es : List Entry) (i : Nat) :
-    ((((es.map fun e => if values.any (fun x => killed order x e) then { e with keep := false } else e).filter
+/-- the mask, `eliminate_zeros` and the selection of row `i`, entry by entry -/
+theorem processed_row (kill : Entry → Bool) (es : List Entry) (i : Nat) :
+    ((((es.map fun e => if kill e then { e with keep := false } else e).filter
         (·.keep)).filter (fun e => e.row == i)).map (·.col))
-      = (es.filter fun e => e.keep && !(values.any fun x => killed order x e) && e.row == i).map (·.col) := by
+      = (es.filter fun e => e.keep && !(kill e) && e.row == i).map (·.col) := by
   induction es with
   | nil => rfl
   | cons e es ih =>
     rw [List.map_cons]
-    by_cases h1 : values.any (fun x => killed order x e) = true
+    by_cases h1 : kill e = true
     · simp only [h1, if_true, List.filter_cons, Bool.false_eq_true, if_false, Bool.not_true, Bool.and_false,
         Bool.false_and]
       exact ih
@@ -119,20 +74,24 @@ theorem processed_row (order : List Int) (values : List Int) (es : List Entry) (
         exact ih
 
 /-- rows of the DAG: the kept out-neighbours, in increasing order -/
-theorem getDag_rows (n : Nat) (edge : Nat → Nat → Bool) (order : List Int) (hlen : order.length = n)
+theorem getDag_rows (n : Nat) (edge : Nat → Nat → Bool) (order : List Int)
     (i : Nat) (hi : i < n) :
-    (rowsOf n ((dagLoop order order.eraseDups (entriesOf n edge)).filter (·.keep))).getD i [] =
+    (rowsOf n (dagEntries n edge order)).getD i [] =
       (List.range n).filter fun j => edge i j && keepPred order i j := by
-  unfold rowsOf
-  rw [tab_getD, if_pos hi, dagLoop_eq, processed_row]
+  unfold rowsOf dagEntries
+  rw [tab_getD, if_pos hi]
+  have hm : (entriesOf n edge).map (dagMask order) = (entriesOf n edge).map fun e =>
+      if (fun e : Entry => decide (order.getD e.row 0 < 0) || decide (order.getD e.col 0 ≤ order.getD e.row 0)) e
+      then { e with keep := false } else e := rfl
+  rw [hm, processed_row]
   unfold entriesOf
   rw [List.filter_flatMap, List.map_flatMap]
   have hblock : ∀ a ∈ List.range n,
       (fun a => ((((List.range n).filter (edge a)).map fun j => (⟨a, j, true⟩ : Entry)).filter
-          fun e => e.keep && !(order.eraseDups.any fun x => killed order x e) && e.row == i).map (·.col)) a
+          fun e => e.keep && !(decide (order.getD e.row 0 < 0) || decide (order.getD e.col 0 ≤ order.getD e.row 0))
+            && e.row == i).map (·.col)) a
         = (fun a => if a = i then (List.range n).filter (fun j => edge i j && keepPred order i j) else []) a := by
-    intro a ha
-    have ha' : a < order.length := by rw [hlen]; exact List.mem_range.1 ha
+    intro a _
     simp only []
     rw [List.filter_map, List.map_map]
     have hid : ((fun e : Entry => e.col) ∘ fun j => (⟨a, j, true⟩ : Entry)) = id := by funext j; rfl
@@ -143,7 +102,7 @@ theorem getDag_rows (n : Nat) (edge : Nat → Nat → Bool) (order : List Int) (
       apply List.filter_congr
       intro j _
       simp only [Function.comp]
-      have := any_killed order ⟨a, j, true⟩ ha'
+      have := masked_iff order ⟨a, j, true⟩
       simp only at this
       rw [this]
       simp [Bool.and_comm]
@@ -157,12 +116,12 @@ theorem getDag_rows (n : Nat) (edge : Nat → Nat → Bool) (order : List Int) (
 theorem rowsOf_length (n : Nat) (es : List Entry) : (rowsOf n es).length = n := by simp [rowsOf]
 
 /-- the `i`-th row of `getDag`, read the way the kernels read it -/
-theorem getDag_row (n : Nat) (edge : Nat → Nat → Bool) (order : List Int) (hlen : order.length = n)
+theorem getDag_row (n : Nat) (edge : Nat → Nat → Bool) (order : List Int) (_hlen : order.length = n)
     (i : Nat) (hi : i < n) :
     (getDag n edge order).row i = (List.range n).filter fun j => edge i j && keepPred order i j := by
   unfold getDag
   rw [csrOfRows_row _ i (by rw [rowsOf_length]; exact hi)]
-  exact getDag_rows n edge order hlen i hi
+  exact getDag_rows n edge order i hi
 
 theorem getDag_nodes (n : Nat) (edge : Nat → Nat → Bool) (order : List Int) :
     (getDag n edge order).indptr.length - 1 = n := by
